@@ -323,9 +323,12 @@ def run_config(unit):
                         if got_bytes:
                             V("oneway-request-got-a-reply|%s" % namekind, "%d reply bytes" % got_bytes, case)
                     if outcome[0] == "comm":
-                        # the connection was dropped: acceptable only as the refusal of a hostile (private / unexposed) request
+                        # the connection was dropped without any reply
                         if allowed_here or name == "ctl":
                             V("allowed-request-dropped-connection|%s|%s" % (kind, req), "%r" % outcome[1], case)
+                        elif not sent_oneway and isinstance(outcome[1], (errors.ConnectionClosedError, errors.TimeoutError)):
+                            # a refusal is an error *reply* (only a oneway request gets none)
+                            V("refused-without-error-reply|%s|%s" % (req, namekind), "request %s(%r) got no reply: %r" % (req, name, outcome[1]), case)
                     # (d) served => advertised
                     if outcome[0] == "ok" and req in ("call", "batch") and isinstance(name, str) and "error" not in got_md and name not in got_md["methods"] and not (kind == "func_attr" and is_target):
                         V("served-but-not-advertised|method|%s|%s" % (kind, namekind), "call of %r succeeded, metadata %r" % (name, got_md), case)
